@@ -639,5 +639,88 @@ impl Column {
 //@end
 }
 
+// =====================================================================
+// ColumnStore.  View: at(row, key) : Option<PropertyValue>, key a String
+// =====================================================================
+// A-HASH for String keys (assumed): std's HashMap<String, V> obeys the key model, and looking a `&str` up
+// finds exactly the entry whose String key has the same characters.
+pub uninterp spec fn str_key(k: &str) -> String;
+#[verifier::external_body]
+pub proof fn axiom_string_keys<V>()
+    ensures
+        vstd::std_specs::hash::obeys_key_model::<String>(),
+        forall|m: Map<String, V>, k: &str| #[trigger] vstd::std_specs::hash::contains_borrowed_key(m, k) == m.contains_key(str_key(k)),
+        forall|m: Map<String, V>, k: &str, v: V| #[trigger] vstd::std_specs::hash::maps_borrowed_key_to_value(m, k, v)
+            == (m.contains_key(str_key(k)) && m[str_key(k)] == v),
+        forall|s: String, k: &str| #![trigger s@, str_key(k)] s@ == k@ ==> s == str_key(k),
+{}
+//@struct ColumnId derive=Clone,Copy
+//@struct ColumnStore
+
+impl ColumnStore {
+    pub open spec fn wf(&self) -> bool {
+        &&& self.columns@.len() == self.names@.len()
+        &&& self.columns@.len() < 0xffff_ffff
+        &&& forall|k: String| self.index@.contains_key(k) ==> (#[trigger] self.index@[k]).0 < self.columns@.len() && self.names@[self.index@[k].0 as int] == k
+        &&& forall|i: int| 0 <= i < self.names@.len() ==> self.index@.contains_key(#[trigger] self.names@[i]) && self.index@[self.names@[i]].0 == i
+        &&& forall|i: int| 0 <= i < self.columns@.len() ==> (#[trigger] self.columns@[i]).wf()
+    }
+    /// the map this store is: (row, key) -> value
+    pub open spec fn at(&self, row: usize, key: String) -> Option<PropertyValue> {
+        if self.index@.contains_key(key) { self.columns@[self.index@[key].0 as int].at(row) } else { None }
+    }
+
+//@fn ColumnStore::column_id ret=r
+//@requires
+        self.wf(),
+//@ensures
+        r.is_some() == self.index@.contains_key(str_key(key)),                       //#some_iff_column_exists
+        r matches Some(id) ==> id == self.index@[str_key(key)],                      //#is_the_column
+//@before "self.index.get(key).copied()"
+        proof { axiom_string_keys::<ColumnId>(); }
+//@end
+
+//@fn ColumnStore::get_by_id ret=r
+//@requires
+        self.wf(),
+//@ensures
+        id.0 < self.columns@.len() ==> r == (match self.columns@[id.0 as int].at(idx) { Some(v) => v, None => PropertyValue::Null }),   //#reads_the_column
+        id.0 >= self.columns@.len() ==> r == PropertyValue::Null,                                                                      //#unknown_id_is_null
+//@end
+
+//@fn ColumnStore::set_property
+//@requires
+        old(self).wf(),
+        idx < usize::MAX,
+        old(self).columns@.len() + 1 < 0xffff_ffff,
+//@ensures
+        final(self).wf(),                                                                                      //#keeps_wf
+        forall|row: usize, k: String| #[trigger] final(self).at(row, k)
+            == if row == idx && k == str_key(key) { Some(value) } else { old(self).at(row, k) },             //#view_is_map_insert
+//@before "if let Some(p__r1) = self.index.get(key)"
+        proof { axiom_string_keys::<ColumnId>(); }
+//@end
+
+//@fn ColumnStore::remove_property
+//@requires
+        old(self).wf(),
+//@ensures
+        final(self).wf(),                                                                                      //#keeps_wf
+        forall|row: usize, k: String| #[trigger] final(self).at(row, k)
+            == if row == idx && k == str_key(key) { None } else { old(self).at(row, k) },                    //#view_is_map_remove
+//@before "if let Some(p__r1) = self.index.get(key)"
+        proof { axiom_string_keys::<ColumnId>(); }
+//@end
+
+//@fn ColumnStore::get_property ret=r
+//@requires
+        self.wf(),
+//@ensures
+        r == (match self.at(idx, str_key(key)) { Some(v) => v, None => PropertyValue::Null }),               //#stored_value_or_null
+//@before "match self.index.get(key)"
+        proof { axiom_string_keys::<ColumnId>(); }
+//@end
+}
+
 } // verus!
 fn main() {}
